@@ -33,7 +33,7 @@ inductive Guard where
   | none        -- the flag is not consulted
   | directOnly  -- machine.py: `protected and not run_mode` -> Illegal function call
   | always      -- program.py list_lines / edit: `protected` -> Illegal function call (also in run mode)
-  | unlessP     -- Program.save: `protected and mode != 'P'`
+  | unlessP     -- Program.save: `protected and g.filetype != 'P'` (the type of the OPENED file)
   | ifMerge     -- Implementation.chain_: `protected and merge`
   | storeLine   -- Program.store_line, reached once per numbered line of the merged file
   deriving DecidableEq, Repr
@@ -151,7 +151,9 @@ structure St where
 /-- Abstract arguments: exactly the features of the concrete arguments that the guard logic and the
     flag updates depend on. -/
 structure Args where
-  mode : Nat := 0          -- SAVE mode / type of the file that is loaded: 0 = B (tokenised), 1 = A, 2 = P
+  mode : Nat := 0          -- SAVE mode requested / type of the file that is loaded: 0 = B (tokenised), 1 = A, 2 = P
+  devD : Bool := false     -- SAVE: the opened file ignores the requested type and reports filetype 'D'
+                           --   (LPTn:, PRN); Program.save tests and formats by g.filetype, not by the mode letter
   merge : Bool := false    -- CHAIN: MERGE option
   hasLine : Bool := false  -- MERGE / CHAIN MERGE: the file contains at least one numbered line
   found : Bool := true     -- LOAD / RUN / CHAIN / MERGE: the file exists;  RUN: a file name was given
@@ -174,19 +176,22 @@ inductive Out where
   | unclassified
   deriving DecidableEq, Repr
 
+/-- the type Program.save sees on the opened file (`g.filetype`): 3 = 'D' for devices without file types -/
+def effMode (a : Args) : Nat := if a.devD then 3 else a.mode
+
 def blocked (g : Guard) (s : St) (run : Bool) (a : Args) : Bool :=
   match g with
   | .none => false
   | .directOnly => s.prot && !run
   | .always => s.prot
-  | .unlessP => s.prot && a.mode != 2
+  | .unlessP => s.prot && effMode a != 2
   | .ifMerge => s.prot && a.merge
   | .storeLine => s.prot && a.hasLine
 
 /-- the danger that materialises for these arguments -/
 def materialise (d : Danger) (a : Args) : Danger :=
   match d with
-  | .emitUnlessP => if a.mode != 2 then .emit else .none
+  | .emitUnlessP => if effMode a != 2 then .emit else .none
   | .injectIfLine => if a.hasLine then .injectIfLine else .none
   | .injectIfMergeLine => if a.merge && a.hasLine then .injectIfLine else .none
   | d => d
